@@ -33,7 +33,7 @@ def configure(live_ids, tier, opts):
 
 
 def _profile():
-    return docs.profile(max_ops=0, max_schemas=4, max_props=5, max_depth=2, inline_allof=True, affix_names=True, prefix_items=True,
+    return docs.profile(max_ops=0, max_schemas=4, max_props=5, max_depth=2, inline_allof=True, affix_names=True, prefix_items=True, quote_enum_values=True,
                         date_datetime_union="KF-C02-02" not in _live,
                         two_array_union="KF-C02-03" not in _live,
                         bool_intenum_union="KF-C02-04" not in _live,
@@ -56,7 +56,14 @@ def cases(draw, tier):
                 insts.append([name, draw(instances.instance(s, comps, 0, bias))])
             except instances.Unsatisfiable:
                 break
-    return {"ir": ir, "cfg": {"literal_enums": draw(st.booleans())}, "insts": insts}
+    # how the document *uses* a component changes the code generated for it (a model used as a multipart body gets a second
+    # encoder from the same template): every object component may also be the body of an operation
+    used_as = {}
+    for name, s in ir["schemas"]:
+        if s["k"] == "object" and draw(st.integers(0, 2)) == 0:
+            used_as[name] = draw(st.sampled_from(["multipart/form-data", "multipart/form-data", "application/x-www-form-urlencoded",
+                                                  "application/json"]))
+    return {"ir": ir, "cfg": {"literal_enums": draw(st.booleans())}, "insts": insts, "used_as_body": used_as}
 
 
 def strategy(tier):
@@ -87,6 +94,12 @@ def run(case, ctx):
     ir = case["ir"]
     comps = docs.comp_map(ir)
     doc = docs.render(ir)
+    for k_body, (name, mt) in enumerate(sorted((case.get("used_as_body") or {}).items())):
+        if name in comps:
+            doc.setdefault("paths", {})[f"/zzbody{k_body}"] = {"post": {
+                "operationId": f"zzSend{k_body}", "requestBody": {"required": True, "content": {mt: {"schema": {"$ref": "#/components/schemas/" + name}}}},
+                "responses": {"200": {"description": "ok"}}}}
+            ctx.label("used_as_body:" + mt.split("/")[-1])
     res = sut.generate(doc, cfg=case.get("cfg") or {})
     try:
         if res.exc is not None or not res.accepted:
